@@ -271,6 +271,8 @@ impl Check for C10Check {
             });
         }
         json!({
+            // first save ever: no previous file on the disk (the "old snapshot" is the empty one a missing file loads as)
+            "first_save": f.chance(1, 5),
             "old": old,
             "new": new,
             "short_writes": (0..f.below(3)).map(|_| json!([f.below(3), f.range(1, 40)])).collect::<Vec<_>>(),
@@ -281,10 +283,11 @@ impl Check for C10Check {
     }
 
     fn run(&self, case: &Json, stats: &mut Stats) -> Result<(), Violation> {
-        for p in ["probe.crash_between_create_and_first_write", "probe.crash_mid_write", "probe.crash_before_rename", "probe.short_write_absorbed", "probe.eintr_absorbed", "probe.enospc_reported", "probe.corruption_rejected", "probe.corruption_accepted_as_other_snapshot", "probe.deep_nesting_survived"] {
+        for p in ["probe.crash_between_create_and_first_write", "probe.crash_mid_write", "probe.crash_before_rename", "probe.short_write_absorbed", "probe.eintr_absorbed", "probe.enospc_reported", "probe.corruption_rejected", "probe.corruption_accepted_as_other_snapshot", "probe.deep_nesting_survived", "probe.first_save_without_previous_file"] {
             stats.add(p, 0);
         }
-        let old = build_snapshot(&case["old"]);
+        let first_save = case["first_save"].as_bool().unwrap_or(false);
+        let old = if first_save { RetainSnapshot::default() } else { build_snapshot(&case["old"]) };
         let new = build_snapshot(&case["new"]);
         let (r_old, r_new) = (render(&old), render(&new));
         let work = fresh_dir("w");
@@ -329,6 +332,13 @@ impl C10Check {
             }
         }
         stats.inc("roundtrips");
+        if case["first_save"].as_bool().unwrap_or(false) {
+            // state A = nothing saved yet
+            for e in std::fs::read_dir(work).expect("read work dir").flatten() {
+                let _ = std::fs::remove_file(e.path());
+            }
+            stats.inc("probe.first_save_without_previous_file");
+        }
         // state A: s_old durably on disk (everything the directory holds)
         let mut disk_a: Disk = BTreeMap::new();
         for e in std::fs::read_dir(work).expect("read work dir").flatten() {
@@ -561,7 +571,7 @@ impl C10Check {
                     format!("alloc/oversized-request/{kind}"),
                     format!("loading a {}-byte file requested a single allocation of {peak} bytes (bound {bound})", bytes.len()),
                 )
-                .narrowed(json!({"old": [], "new": [], "raw_hex": hex(bytes), "edits": []})));
+                .narrowed(json!({"old": [], "new": [], "raw_hex": hex(bytes), "raw_kind": kind, "edits": []})));
             }
             match verdict {
                 Err(_) => stats.inc("probe.corruption_rejected"),
@@ -584,7 +594,8 @@ impl C10Check {
             let peak = crate::alloc_probe::max_single();
             let bound = bytes.len() * 64 + (64 << 10);
             if peak > bound {
-                return Err(Violation::new("alloc/oversized-request/raw", format!("loading a {}-byte file requested a single allocation of {peak} bytes", bytes.len())));
+                let kind = case["raw_kind"].as_str().unwrap_or("raw");
+                return Err(Violation::new(format!("alloc/oversized-request/{kind}"), format!("loading a {}-byte file requested a single allocation of {peak} bytes", bytes.len())));
             }
         }
         Ok(())
